@@ -45,6 +45,14 @@ def cases(ctx):
         for v in ([one, scan_streams.BOM + one] if one else []) + [scan_streams.BOM + text, scan_streams.BOM + text.rstrip("\n")]:
             if rnd.random() < ctx.pick(0.3, 0.5):
                 out.append((lang, v))
+    # member positions (harness/gen/programs.py): header-shaped members directly after `{`, `,`, `;`, `}` in every kind of
+    # body of the brace languages, whole and cut at a random character
+    from gen import programs
+    for lang in sorted(programs.MEMBER_CONTAINERS):
+        for _ in range(ctx.pick(4, 40)):
+            text = programs.member_program(lang, rnd)
+            out.append((lang, text))
+            out.append((lang, text[:rnd.randrange(len(text))]))
     out += scan_streams.decorate(ctx, out, ctx.pick(0.06, 0.1), "c05decor")
     out += [(lang, text) for (lang, text, d) in long_cases(ctx) if d["chars"] <= MODEL_CHARS]
     return [(l, t) for (l, t) in out if "\r" not in t]
@@ -340,11 +348,27 @@ def tree_plan(ctx):
 
     soup_pool = [t for (l, t) in scan_streams.soups(ctx, 60, "c05treesoup") if "\r" not in t] or ["x"]
 
+    def _grouped(lines, rnd):
+        out, i = [], 0
+        while i < len(lines):
+            k = rnd.randint(1, 4)
+            out.append(lines[i:i + k]); i += k
+        return out
+
     def content(lang):
         if rnd.random() < 0.15:
             text = rnd.choice(soup_pool)
         else:
             text = scan_streams.named_program(lang, rnd, extras=True).text(rnd.random() < 0.85)
+        if rnd.random() < 0.3:
+            # contents that are NOT in Unicode Normalization Form C: identifiers (function names, parameters, variables,
+            # words in literals) respelled with decomposed letters / singletons where the lexer reads them as one
+            # identifier, combining marks inside string literals and comments; a share of the brace programs on few lines
+            # (statements in front of a header on its line)
+            if lang != "Python" and rnd.random() < 0.3:
+                text = "\n".join(" ".join(ln for ln in part) for part in _grouped([l for l in text.split("\n") if not l.lstrip().startswith(("#", "//"))], rnd))
+            text = scan_streams.denormalise(lang, text, rnd, rnd.choice([0.2, 0.5, 1.0]))[0]
+            text = scan_streams.denormalise_literals(lang, text, rnd, rnd.choice([0.05, 0.3]))
         if lang != "Python" and rnd.random() < 0.35:
             # top-level blocks headed by a word that is a keyword HERE and an identifier in another supported language
             kws = scan_streams.reverse_cross_names(lang)
@@ -504,6 +528,12 @@ def fresh_tree_eval(files, ops, only=None):
         return tree_eval(files, ops, only)
 
 
+def _not_nfc(data):
+    import file_front as ff
+    t = ff.read_back(data)
+    return _nf(t) != t
+
+
 def _nf(s):
     import unicodedata
     return unicodedata.normalize("NFC", s)
@@ -515,7 +545,8 @@ def tree_failures(ctx, dist=None):
     if dist is not None:
         dist["tree"] = {"files": len(files), "history_operations": len(ops), "files_judged_over_all_scans": judged,
                         "renamed_to_another_language": sum(1 for o in ops if o["op"] == "rename" and _lang_of(o["from"]) != _lang_of(o["to"])),
-                        "twin_names": sum(1 for r in files if _nf(r) != r), "extension_case_variants": sum(1 for r in files if os.path.basename(r).startswith("cv")), "non_lf_line_ends": sum(1 for d in files.values() if b"\r" in d)}
+                        "twin_names": sum(1 for r in files if _nf(r) != r), "extension_case_variants": sum(1 for r in files if os.path.basename(r).startswith("cv")), "non_lf_line_ends": sum(1 for d in files.values() if b"\r" in d),
+                        "contents_not_in_nfc": sum(1 for d in files.values() if _not_nfc(d))}
     out = []
     for f in raw[:6]:
         # a small scenario that still fails: the file (under the name it was created with), the files whose names are
@@ -608,7 +639,7 @@ def correspond(ctx):
             fails.append({"input": {"language": lang, "code": code}, "observed": repr(e), "required": "_analyze_file completes"})
     return {
         "evaluations": len(cs) + nbig + probes, "distinct_nontrivial": len(nontrivial) + nbig,
-        "rule": "FILE-SIZE LADDER: one file of exactly n characters (n = 10^3, 10^4, 10^5; thorough up to 3*10^6; plus n-1, n, n+1, 2n for every integer literal that is new in the source under check), made of functions whose bodies are tokens spanning several lines (doc strings, multi-line / raw / verbatim / template strings, block comments inside statements), in Python and two other languages per rung, LF / CR LF, scanned through Scanner.scan_path and judged by the direct oracle on the file's text; CASE VARIANTS of file extensions (x.c next to x.C, x.h / x.H, ... created in both orders; each analysed as the language Pygments gives the NAME) and top-level `keyword (..) {` blocks whose keyword is an identifier in another supported language; FILES: a tree of generated programs in all languages (function names drawn with replacement from words that are keywords in another supported language) and malformed texts, with LF / CR LF / CR / mixed line ends and UTF-8 signatures, under file names from Pygments and Unicode (every name mapped to the language, NFC / NFD twins in one directory, awkward characters), observed through Scanner.scan_path(root).files: every file of a supported language is listed under its own path and language with well-formed measurements for ITS text; then a history (renames and moves keeping the bytes, also to another language's extension; contents replaced with back-dated modification times; removals) and a second scan_path with the first scan's report as cache, judged the same way; the final tree once more with the root spelled through a symbolic link and through `<root>/<dir>/..`; malformed stream (prefixes, suffixes, line/token deletions, duplications, swaps of canonical programs and corpus files; token soups over each language's lexical alphabet; deep nesting; tiny inputs) + canonical programs + vendored corpus; configuration variants: canonical programs rendered on ONE line without any newline / behind a byte order mark / both, and a share of all other texts likewise (+ a blank replaced by a Unicode separator); single-line ladder 10^2 .. 10^6 characters (string literal, block comment followed by a function, short statements, one-line function; a quarter behind a byte order mark); programs of 10^2 .. 10^4 lines (one function / many functions), whole and cut at a random character - up to 10^4 characters against the model, above by the direct oracle only; second-scan probe on a sample (same token list and Language object, first result mutated; then a fresh analysis); non-trivial = distinct inputs with at least one reported measurement",
+        "rule": "MEMBER POSITIONS: programs with header-shaped members directly after `{`, `,`, `;`, `}` in every kind of body of the brace languages (modifier-less constructors first, enum constants with class bodies, object-literal methods), whole and cut at a random character; NON-NFC CONTENTS: a share of the files of the tree holds text that is not in Unicode Normalization Form C (identifiers respelled with decomposed letters / ANGSTROM, OHM, KELVIN signs wherever the language's lexer reads the spelling as one identifier - function names, parameters, variables; combining marks inside string literals and comments; a share of these programs with several lines joined so that statements stand in front of a header on its line), judged against the file's OWN text; FILE-SIZE LADDER: one file of exactly n characters (n = 10^3, 10^4, 10^5; thorough up to 3*10^6; plus n-1, n, n+1, 2n for every integer literal that is new in the source under check), made of functions whose bodies are tokens spanning several lines (doc strings, multi-line / raw / verbatim / template strings, block comments inside statements), in Python and two other languages per rung, LF / CR LF, scanned through Scanner.scan_path and judged by the direct oracle on the file's text; CASE VARIANTS of file extensions (x.c next to x.C, x.h / x.H, ... created in both orders; each analysed as the language Pygments gives the NAME) and top-level `keyword (..) {` blocks whose keyword is an identifier in another supported language; FILES: a tree of generated programs in all languages (function names drawn with replacement from words that are keywords in another supported language) and malformed texts, with LF / CR LF / CR / mixed line ends and UTF-8 signatures, under file names from Pygments and Unicode (every name mapped to the language, NFC / NFD twins in one directory, awkward characters), observed through Scanner.scan_path(root).files: every file of a supported language is listed under its own path and language with well-formed measurements for ITS text; then a history (renames and moves keeping the bytes, also to another language's extension; contents replaced with back-dated modification times; removals) and a second scan_path with the first scan's report as cache, judged the same way; the final tree once more with the root spelled through a symbolic link and through `<root>/<dir>/..`; malformed stream (prefixes, suffixes, line/token deletions, duplications, swaps of canonical programs and corpus files; token soups over each language's lexical alphabet; deep nesting; tiny inputs) + canonical programs + vendored corpus; configuration variants: canonical programs rendered on ONE line without any newline / behind a byte order mark / both, and a share of all other texts likewise (+ a blank replaced by a Unicode separator); single-line ladder 10^2 .. 10^6 characters (string literal, block comment followed by a function, short statements, one-line function; a quarter behind a byte order mark); programs of 10^2 .. 10^4 lines (one function / many functions), whole and cut at a random character - up to 10^4 characters against the model, above by the direct oracle only; second-scan probe on a sample (same token list and Language object, first result mutated; then a fresh analysis); non-trivial = distinct inputs with at least one reported measurement",
         "samples": [{"language": l, "code": c[:120], "impl": r[:120]} for (l, c), r in list(zip(cs, real))[100:103]],
         "exhaustive": False, "distribution": dist,
         "disagreements": dis[:50], "oracle_failures": fails[:50],
